@@ -150,6 +150,31 @@ def evaluate(ctx, stacks, files, aseed, cfgs, pairs="all", only=None, corpus=Non
                     report(cfg, inf, "prefix" if j < n else "complete", [j], dat, o[j], None if m is None else (m[j] if j < len(m) else "?"), extra={"file_size": n})
                 if len(corr.samples) < 3 and inf.depth >= 3 and n < 300 and m is not None:
                     corr.sample({"kind": "prefix", "stack": inf.label, "file_size": n, "impl": "".join(x if len(x) == 1 else "!" for x in o), "model": m, "cfg": cfg})
+        # ---------------------------------------------------------------- (a') the same prefixes through a stream whose owner enabled
+        # exceptions(failbit|badbit): the loader must still end in an exception (never std::terminate / abort)
+        if want("xprefix"):
+            ks = [k for k in good if len(hexes[k]) // 2 <= 400][: (40 if ctx.quick else 400)]
+            po = impl.run(cfg, [(files[k][0], "xprefixes {s} " + hexes[k]) for k in ks], timeout_per_line=5)
+            for k, o in zip(ks, po):
+                si, dat = files[k]; inf = infos[si]; n = len(hexes[k]) // 2
+                m = pmodel.get(k)
+                if o.startswith(BAD) or len(o) != n + 1:
+                    # attribute the death to the shortest prefix: truncation points one process each, smallest first
+                    found = None
+                    for j in range(0, n + 1):
+                        one = impl.run(cfg, [(si, "xprefixes {s} " + hexes[k][: 2 * j])], timeout_per_line=5)[0]
+                        if one.startswith(BAD) or len(one) != j + 1:
+                            found = (j, one); break
+                        if j > 24:
+                            break
+                    j, one = found if found else (0, o)
+                    report(cfg, inf, "xprefix", [j], dat, one if one.startswith(BAD) else "died", None if m is None else "E", extra={"file_size": n, "stream": "exceptions(failbit|badbit)"})
+                    continue
+                for j in range(n + 1):
+                    if only is not None and only["kind"] == "xprefix" and only["fault"] != [j]:
+                        continue
+                    report(cfg, inf, "xprefix" if j < n else "complete", [j], dat, o[j], None if m is None else (m[j] if j < len(m) else "?"),
+                           extra={"file_size": n, "stream": "exceptions(failbit|badbit)"})
         # ---------------------------------------------------------------- (b) checked words x replacement values
         if want("alt") or want("widthswap"):
             arnd = random.Random(aseed)
